@@ -21,7 +21,7 @@ CHECKS = {
          "The harness owns the schedule of the plan cache's two critical sections through the yield hook: all interleavings are enumerated for 2x2, 3x1 and selected 3x2 request shapes (also with the cache at capacity), and generated request histories/schedules (incl. 60-90 distinct sizes to force eviction and re-requests of evicted sizes) are explored; after every critical section the capacity bound, the queue/key bijection and key == plan size are checked, and every encoder is compared (== and packet-wise) with encoders built without the cache. An uncontrolled multi-thread stress run adds the same invariants at the end.",
          "Sound reduction to critical-section granularity assumes all shared state is behind the cache Mutex (true in this tree) and std::sync::Mutex is correct; exhaustive only for the listed small shapes.",
          "DESIGN.md 5/C17"),
- "C07": ("multi-build differential testing over a seeded generated workload (SHA-256 per case and configuration) + in-process enumeration of all 477 block sizes through every construction (planned / unplanned / cache / dense / sparse), packets compared",
+ "C07": ("multi-build differential testing over a seeded generated workload (SHA-256 per case and configuration) + in-process enumeration of all 477 block sizes through every construction (planned / unplanned / cache / dense / sparse), packets compared; release vs debug-assertion harness builds on oracle-constructed rank-deficient histories",
          "The same generated workload is run in 4 cargo builds (release / debug-assertions+overflow-checks x std / no_std) and, inside the release-std build, under every forced kernel (AVX-512, AVX2, SSSE3, portable, default) x sparse threshold {0, 250, inf} x plan mode {new, new again (cache hit), with_encoding_plan, unplanned}; every configuration must produce the identical digest of packets + decode outcome + decoded bytes for every case (undecodable cases included).",
          "Differential: agreement of all configurations, not absolute correctness (that is C01/C04). NEON and 32-bit x86 cannot run here. The dispatch override hook is trusted.",
          "DESIGN.md 5/C07"),
@@ -61,7 +61,7 @@ CHECKS = {
          "Generated windows (incl. ending at ESI 2^24-1), overlapping window pairs, plan instances and multi-block objects: window == singles, overlaps agree, IDs (block, K+s+i), payload == reference Enc over the encoder's intermediate symbols, encoders from equal plans ==, object packet list structure.",
          "Sampled; ties to the RFC symbol through C04's certified intermediate symbols.",
          "DESIGN.md 5/C18"),
- "C02": ("proptest over arrival sequences; oracle = independent incremental GF(256) rank of the RFC constraint matrix, checked at every prefix, both directions",
+ "C02": ("proptest over arrival sequences (random; oracle-constructed runs of rank-deficient prefixes, also in the debug-assertion profile; bulk exactly-K sets on small blocks; single batches of up to 140 000 symbols); oracle = independent incremental GF(256) rank of the RFC constraint matrix, checked at every prefix, both directions",
          "For generated arrival sequences (source/repair mixes, repair ESIs over the whole 24-bit range, overheads straddling the binary-only fast-path trigger, all three back-ends) the decoder's Some/None is compared after every packet with 'all source received or rank = L', the rank coming from an independent elimination over reference-generated rows; large blocks are checked with a structured rank routine at selected set sizes.",
          "Rank oracle rows come from the reference model (trusted tables). Exact prefix oracle for K <= 300/600; structured rank up to K'=2000 quick / 10000 thorough.",
          "DESIGN.md 5/C02"),
